@@ -146,6 +146,7 @@ def oracle(policy, actions, recs, snap):
                                  f'every member has finished but join has not returned '
                                  f'(log {log}, consumed by callers {yl})'))
                 break
+    bad += c09.join_stuck('c10:join-stuck', policy, actions, recs, snap)[1]
     return bad
 
 
